@@ -144,11 +144,3 @@ def every_node_skips_interfaces_deferred_until_a_later_cycle(e0: bool, e1: bool,
     assert trace == wanted("EveryNode", en, bf, rev, subset(dmask), (cycle, node)), "not excluded OR DEFERRED"
 
 
-@lemma(gen={"cycle": (0, 3), "node": (0, 3)},
-       stubs={"armi.bookkeeping.report.reportingUtils:writeTightCouplingConvergenceSummary": "no_report"})
-def iteration_cap_zero_means_no_iterations(cycle: int, node: int):
-    pa = sym_list("bool", "pa", maxlen=6)
-    trace = []
-    o = coupled_operator(trace, (pa, None, None), (True, True, True), 0, [])
-    o._performTightCoupling(cycle, node)
-    assert trace == [("DBWRITE",)], "cap reached immediately: no Coupled call, the node is written"
